@@ -9,6 +9,7 @@ package c17
 
 import (
 	"fmt"
+	"time"
 
 	"verifharness/internal/core"
 )
@@ -164,6 +165,12 @@ func run(r *core.Run) {
 	schedules := 0
 	// the race-detector build + run of the v1 shared-handle workload proceeds in the background (v1race.go)
 	raceJob := startV1Race(r)
+	phase := map[string]float64{}
+	t0 := time.Now()
+	lap := func(name string) {
+		phase[name] = float64(int(time.Since(t0).Seconds()*10+0.5)) / 10
+		t0 = time.Now()
+	}
 
 	// 0. deterministic witness of the cache aliasing defect (repo-patches/05)
 	runV1Aliasing(r)
@@ -172,6 +179,7 @@ func run(r *core.Run) {
 		schedules += exhaustive(r, sc, "corpus-exhaustive", 0)
 	}
 
+	lap("corpus")
 	// 2. exhaustive: two writers, every pair of short programs over the alphabet, every schedule
 	pairs := 0
 	next := 10
@@ -213,6 +221,7 @@ func run(r *core.Run) {
 		pairs += n
 	}
 
+	lap("exhaustive")
 	// 3. random scenarios under a random script, and free-running goroutines
 	n := r.N(120, 3000)
 	for i := 0; i < n; i++ {
@@ -228,6 +237,7 @@ func run(r *core.Run) {
 		r.Diff(o.line, o.impl)
 		judge(r, o)
 	}
+	lap("scripted")
 	n = r.N(120, 3000)
 	var freeScs []scenario
 	var freeKeys []string
@@ -238,6 +248,7 @@ func run(r *core.Run) {
 		freeKeys = append(freeKeys, sc.key()+fmt.Sprintf("free%d", i))
 	}
 	runFreeIsolated(r, freeScs, freeKeys) // in child processes: a runtime crash there is an oracle failure
+	lap("free")
 	// 4. separate processes sharing one directory back end (flock between processes)
 	n = r.N(4, 150)
 	for i := 0; i < n; i++ {
@@ -249,12 +260,17 @@ func run(r *core.Run) {
 		r.Diff(o.line, o.impl)
 		judge(r, o)
 	}
+	lap("procs")
 	// 4b. two concurrent imports of the same new ring, every schedule
 	runImportRace(r)
+	lap("import-race")
 	// 5. one v1 handle shared by many goroutines
 	runV1Shared(r)
+	lap("v1-shared")
 	// 6. the same under the Go race detector (cache size 2, 8 goroutines), built and run as a child process
 	raceJob.finish(r)
+	lap("v1-race-wait")
+	r.Extra["phase_s"] = phase
 	r.Extra["schedules_enumerated"] = schedules
 	r.Exhaustive = true
 	r.Note("exhaustive part: every interleaving (at back-end-call granularity) of each enumerated two-writer scenario was executed on the real key store and replayed through the model")
